@@ -102,7 +102,7 @@ def correspond(ctx):
         with warnings.catch_warnings():
             warnings.simplefilter("ignore")
             try:
-                r = s.solve(backend=make_mock(ctx.rng, log))
+                r = core.with_timeout(10, s.solve, backend=make_mock(ctx.rng, log))
                 real = [r, _key_sols(s)]
             except Exception as e:
                 real = ["err", core.err_name(e)]
@@ -115,7 +115,7 @@ def correspond(ctx):
         with warnings.catch_warnings():
             warnings.simplefilter("ignore")
             try:
-                r = s.solve("z3")
+                r = core.with_timeout(10, s.solve, "z3")
                 realz = [r, _key_sols(s)]
             except Exception as e:
                 realz = ["err", core.err_name(e)]
@@ -173,13 +173,14 @@ def search(ctx, why):
             continue
         cs = [exprio.pexpr(c) for c in s.constraints]
         decls = [exprio.pdecl(v) for v in s.variables]
+        ctx.extra["last_case"] = {"decls": decls, "keys": list(s.is_answer_key), "constraints": cs}
         for tag in ("z3", "mock"):
             for v in s.variables:
                 v.sol = None
             with warnings.catch_warnings():
                 warnings.simplefilter("ignore")
                 try:
-                    r = s.solve("z3") if tag == "z3" else s.solve(backend=make_mock(ctx.rng, {"calls": [], "answers": []}))
+                    r = core.with_timeout(10, s.solve, "z3") if tag == "z3" else core.with_timeout(10, s.solve, backend=make_mock(ctx.rng, {"calls": [], "answers": []}))
                 except Exception as e:
                     r = "err:" + core.err_name(e)
             got = [v.sol for v in s.variables]
@@ -213,7 +214,7 @@ def replay(ctx, data):
         with warnings.catch_warnings():
             warnings.simplefilter("ignore")
             try:
-                r = s.solve("z3") if data["backend"] == "z3" else s.solve(backend=make_mock(ctx.rng, {"calls": [], "answers": []}))
+                r = core.with_timeout(10, s.solve, "z3") if data["backend"] == "z3" else core.with_timeout(10, s.solve, backend=make_mock(ctx.rng, {"calls": [], "answers": []}))
             except Exception as e:
                 return Finding("solve:replay", f"raised {core.err_name(e)}", data)
         if r != (want is not None):
